@@ -918,6 +918,9 @@ def check_bounds(case, ctx):
 # state machine: histories of new / += / + / subset / split / concatenate
 # ---------------------------------------------------------------------------
 
+MAX_CONCAT_RXNS = 40
+
+
 def new_state():
     return {"pool": [], "reg": [], "descs": [], "after_add": False, "nontrivial": False, "ops": 0}
 
@@ -1024,13 +1027,18 @@ def apply_op(state, op, ctx):
             _verify(state, a, ctx, "iadd_system")
         else:
             # ["concat", i, j, k, ...]: the system i the sum starts from, then 1-4 *different* later operands
-            used, later = [ia], []
+            # (further operands are left out once the sum could exceed MAX_CONCAT_RXNS reactions: the cost of the
+            # structural queries grows faster than linearly and sums re-enter the pool)
+            used, later, size = [ia], [], len(a["rids"])
             for x in op[2:]:
                 if len(used) == len(pool):
                     break
                 idx = x % len(pool)
                 while idx in used:
                     idx = (idx + 1) % len(pool)
+                size += len(pool[idx]["rids"])
+                if later and size > MAX_CONCAT_RXNS:
+                    break
                 used.append(idx)
                 later.append(pool[idx])
             ctx.label("op:concat_operands=%d" % (1 + len(later)))
